@@ -509,7 +509,7 @@ func C14Scenarios(tier string) []*Scenario {
 // ---- what the name given to extend / map|FUNC / default refers to ----
 
 var c14DeclKinds = []string{"func", "generic", "generic-result", "unexported-local", "unexported-other-pkg", "exported-other-pkg",
-	"var-nonfunc", "var-func", "const", "type-func", "type-alias-func", "missing", "missing-pkg", "method-value-var"}
+	"var-nonfunc", "var-func", "const", "type-func", "type-alias-func", "missing", "missing-pkg", "method-value-var", "variadic", "variadic-extra"}
 
 func buildC14Decl(id, site, kind string) *Scenario {
 	sc := &Scenario{ID: "HD" + id, PropGen: "C14", PropVal: "C14", Test: "Convert", Funcs: map[string]string{},
@@ -550,6 +550,14 @@ func buildC14Decl(id, site, kind string) *Scenario {
 			reject, unspec = "", "generic function whose type parameter is not inferable"
 			sc.NoRuntime = true
 		}
+	case "variadic":
+		// the only parameter is variadic: called with one argument it would receive a one-element list, but the
+		// function is registered for []S sources
+		sc.FuncsSrc = fmt.Sprintf("func %s(s ...%s) %s { return %s }\n", fn, fs.Go("conv"), ft.Go("conv"), ret("conv"))
+		expr, reject = "", "variadic parameter"
+	case "variadic-extra":
+		sc.FuncsSrc = fmt.Sprintf("func %s(s %s, more ...int) %s { return %s }\n", fn, fs.Go("conv"), ft.Go("conv"), ret("conv"))
+		expr, reject = "", "variadic parameter"
 	case "unexported-local":
 		fn = "fd" + id
 		ref, expr = fn, ""
